@@ -2,7 +2,9 @@
 """
 C12 Stereo signs are permutation-consistent (table clauses proved; ladders, mark parity, label lifecycle decided).
 """
-from ..r_stereo import rule_tetrahedron_table, rule_alkene_table, rule_ladders
+from ..r_stereo import rule_tetrahedron_table, rule_alkene_table, rule_ladders, rule_stereo_cache_set
+from ..r_codebooks import rule_mark_parity
+from ..r_protocol import run_protocol
 
 LEVEL = 'other'
 
@@ -15,3 +17,7 @@ def run(ck, repo):
     rule_tetrahedron_table(ck, repo)
     table = rule_alkene_table(ck, repo)
     rule_ladders(ck, repo, table)
+    rule_mark_parity(ck, repo, 'C12.D4-mark-parity')
+    rule_stereo_cache_set(ck, repo)
+    # labels are kept only on centres that are stereogenic: every structural change reaches fix_stereo
+    run_protocol(ck, repo, 'C12.D5-fix_stereo-reached', only_dims={'STEREO'})
